@@ -506,9 +506,23 @@ def replay(ctx, w):
         return ctx.violations or None
     c = w['call']
     with T.Tree(TREE, 'c19r-') as tr:
-        clear_caches()
-        alone = eval_call(c, tr.root)
+        pool0 = build_pool(ctx.seed)
+        alone = None
+        if 'id' in c and c['id'] < len(pool0) and pool0[c['id']]['pat'] == c['pat'] and pool0[c['id']]['flags'] == list(c['flags']):
+            # the answer of an interpreter that has done nothing else is the reference
+            alone = run_fresh(ctx.seed, tr.root, [c['id']])[c['id']]
+            # (this process has not evaluated the call yet: state that no cache clear reaches is still untouched)
+            for other in [x for x in pool0 if x['pat'] == c['pat'] and x['id'] != c['id']][:60]:
+                eval_call(other, tr.root)
+            got = eval_call(c, tr.root)
+            if got != alone:
+                ctx.disagree('answer depends on the history (replay: calls with the same text first)',
+                             {'call': c, 'fresh_interpreter': alone, 'observed': got})
+                return ctx.violations
         # the recorded answer alone after a cache clear is the reference; re-create a colliding history
+        if alone is None:
+            clear_caches()
+            alone = eval_call(c, tr.root)
         pool = build_pool(ctx.seed)
         rng = random.Random(0)
         for _ in range(3):
